@@ -5,7 +5,9 @@ import (
 	"fmt"
 	"math"
 	"net/http"
+	"runtime"
 	"strconv"
+	"sync"
 
 	"github.com/issue9/mux/v9"
 	"github.com/issue9/mux/v9/types"
@@ -17,7 +19,7 @@ import (
 // C20: Params accessors agree with each other and with strconv.
 
 var c20Values = []string{"", "0", "1", "-1", "+1", "-0", "007", "42", "9223372036854775807", "9223372036854775808", "-9223372036854775808", "-9223372036854775809",
-	"18446744073709551615", "18446744073709551616", "1e309", "1e-400", "NaN", "nan", "Inf", "-Inf", "+Inf", "infinity", "0x10", "0b11", "0o7", "1_000", "1.5", ".5", "5.", "1e3", "true", "false", "TRUE", "True", "t", "f", "T", "F", "yes", "1 ", " 1", "\xff", "１２", "١٢٣", "1\x00", "abc"}
+	"18446744073709551615", "18446744073709551616", "1e309", "1e-400", "NaN", "nan", "Inf", "-Inf", "+Inf", "infinity", "0x10", "0b11", "0o7", "1_000", "1.5", ".5", "5.", "1e3", "true", "false", "TRUE", "True", "t", "f", "T", "F", "yes", "tRUE", "TRue", "fALSE", "falsE", "fal\u017fe", "tRuE", "On", "0x1", "1 ", " 1", "\xff", "１２", "١٢٣", "1\x00", "abc"}
 
 var c20Keys = []string{"id", "", "a", "A", "id ", "名", "\xff", "k1", "k2", "k3", "a-very-long-key-name"}
 
@@ -182,7 +184,55 @@ func c20Numeric(r *ref.R) string {
 	return string(b)
 }
 
+// c20Churn: contexts change hands quickly between goroutines (the pool is process-wide): whoever holds one sees exactly
+// what it stored in it, from NewContext to its own Destroy.
+func c20Churn(c *Ctx) {
+	const workers = 8
+	var wg sync.WaitGroup
+	var mu sync.Mutex
+	var bad []string
+	for g := 0; g < workers; g++ {
+		wg.Add(1)
+		go func(g int) {
+			defer wg.Done()
+			for i := 0; i < 4000; i++ {
+				ctx := types.NewContext()
+				id := fmt.Sprintf("g%d-%d", g, i)
+				if n := ctx.Count(); n != 0 {
+					mu.Lock()
+					bad = append(bad, fmt.Sprintf("a context from the pool starts with %d parameters", n))
+					mu.Unlock()
+					return
+				}
+				ctx.Set("owner", id)
+				ctx.Set("k"+id, "v")
+				runtime.Gosched()
+				v, ok := ctx.Get("owner")
+				if n := ctx.Count(); !ok || v != id || n != 2 {
+					mu.Lock()
+					bad = append(bad, fmt.Sprintf("the holder of a context stored owner=%q and one more parameter; now Get(owner)=%q,%v Count=%d", id, v, ok, n))
+					mu.Unlock()
+					return
+				}
+				ctx.Destroy()
+			}
+		}(g)
+	}
+	wg.Wait()
+	c.EvalN(workers * 4000)
+	c.Class("pool_churn_between_goroutines")
+	if len(bad) > 0 {
+		c.Violate("contexts changing hands between goroutines: "+bad[0], map[string]any{"more": bad})
+	}
+}
+
 func runC20(c *Ctx) {
+	if c.Case%40 == 7 {
+		c20Churn(c)
+		if c.Violated() {
+			return
+		}
+	}
 	r := c.R
 	var trail []string
 	ctx := types.NewContext()
